@@ -1094,6 +1094,18 @@ func c14builderOwnsEntries(p *Program, r *Report) {
 							walk(e)
 						}
 					case *ssa.MakeSlice:
+						// make + indexed fill: every element stored into it
+						for _, ref := range *x.Referrers() {
+							ia, ok := ref.(*ssa.IndexAddr)
+							if !ok {
+								continue
+							}
+							for _, r2 := range *ia.Referrers() {
+								if st, ok := r2.(*ssa.Store); ok && st.Addr == ssa.Value(ia) && !fromMapRange(st.Val, recv) {
+									foreign = append(foreign, exprString(st.Val)+" stored at "+p.Pos(st.Pos()))
+								}
+							}
+						}
 					case *ssa.Slice:
 						walk(x.X)
 					case *ssa.Call:
